@@ -259,20 +259,21 @@ def cfg_to_bytes(ctx):
 def jobs(tier, seed):
     out = []
     quick = tier == "quick"
-    for sh, bits in ([("A-EPS2", [0]), ("A-MB", [0, 1]), ("A-S1", [])] if quick else [("A-EPS2", [0]), ("A-MB", [0, 1, 2]), ("A-S1", []), ("A-EPS", [0, 1, 2]), ("A-DAG", [0, 1])]):
+    for sh, bits in ([("A-EPS2", [0]), ("A-MB", [0, 1, 2]), ("A-S1", [])] if quick else [("A-EPS2", [0]), ("A-MB", [0, 1, 2, 3]), ("A-S1", []), ("A-EPS", [0, 1, 2]), ("A-DAG", [0, 1])]):
         sk = automaton(sh)
         strings = [list(x) for x in all_strings(_alphabet(sk), 2 if sh == "A-MB" else 3)]
         alw = list(range(len(sk.arcs), sk.K))
         out += split_job(dict(case="to_cfg", params=dict(shape=sh, strings=strings, always=alw)), bits)
     out.append(dict(case="from_string_to_cfg", params=dict(sources=[[], ["a"], ["a", "b"], ["a", "a"], ["b", "a", "b"]],
                                                            strings=[list(x) for x in all_strings(["a", "b"], 3)])))
-    for sh, bits in [("A-MB", [0, 1])]:
+    for sh, bits in [("A-MB", [0, 1, 2])]:
         sk = automaton(sh)
         strings = [list(x) for x in all_strings(_alphabet(sk), 2)]
         alw = list(range(len(sk.arcs), sk.K))
         out += split_job(dict(case="wfsa_to_bytes", params=dict(shape=sh, strings=strings, always=alw)), bits)
     Lb = 6 if quick else 8
     out.append(dict(case="wfsa_to_bytes_support", params=dict(shapes=["A-MB"], L=Lb), timeout=900))
+    out.append(dict(case="wfsa_to_bytes_support", params=dict(shapes=["A-MB4"], L=Lb), timeout=900))
     # two converted automata in one machine, entered through the first one only (a grammar whose start symbol reaches terminal A)
     out.append(dict(case="wfsa_to_bytes_support", params=dict(shapes=["A-MB2", "A-MB3"], L=Lb, start_at_first=True), timeout=900))
     out.append(dict(case="wfsa_to_bytes_support", params=dict(shapes=["A-MB2", "A-MB3"], L=Lb), timeout=900))
